@@ -9,7 +9,8 @@ CORR_AD = "corr:astdiff (Model/AstDiff.v vs internal/astdiff + internal/diff, on
 NOPOS = -(1 << 40)
 COND_NAMES = ["every declaration starts after NoPos and ends after it starts", "the declarations are in source order",
               "every changed declaration's subtree lies within its extent (nodes have positions, lists of nodes hold nodes only)",
-              "the list's region starts after NoPos", "... and not after the first declaration", "the file ends after every declaration starts"]
+              "the list's region starts after NoPos", "... and not after the first declaration", "the file ends after every declaration starts",
+              "every field of the file other than its declarations (package clause, position fields, File.Unresolved, File.Comments) is the same in both snapshots"]
 
 PATCHES = {
     "expr": "@@\nvar x expression\n@@\n-foo(x)\n+bar(x)\n",
@@ -45,12 +46,14 @@ PATCHES = {
     # a replacement much longer than what it replaces, rewritten again by a later change of the same run
     "grow-then-shrink": "@@\nvar x expression\n@@\n-foo(x)\n+\"" + "L" * 400 + "\"\n\n@@\n@@\n-\"" + "L" * 400 + "\"\n+short()\n",
     "grow-then-edit": "@@\nvar x expression\n@@\n-foo(x)\n+pad(\"" + "L" * 300 + "\", x)\n\n@@\nvar y expression\nvar s expression\n@@\n-pad(s, y)\n+padded(y)\n",
+    # the package clause itself rewritten (its comments are the file's, whatever happens to the name)
+    "pkg-rename": "@@\nvar x expression\n@@\n-package p\n+package renamed\n\n foo(x)\n",
     "two-changes": "@@\nvar x expression\n@@\n-foo(x)\n+bar(x)\n\n@@\nvar y expression\n@@\n-bar(y)\n+baz(y, 1)\n",
     "three-changes": "@@\nvar x expression\n@@\n-keep(x)\n+kept(x)\n\n@@\n@@\n-func target() error {\n+func renamed() error {\n   ...\n }\n\n@@\nvar y expression\n@@\n-foo(y)\n+bar(y)\n",
 }
 
 
-NEED = {"import-delete-middle": 7, "stmt-delete": 4, "lock": 5, "if-err": 6, "import-replace": 7, "two-stmts-away": 0, "import-two-changes": 7, "import-three-changes": 7, "grow-then-shrink": 9, "grow-then-edit": 9}
+NEED = {"import-delete-middle": 7, "stmt-delete": 4, "lock": 5, "if-err": 6, "import-replace": 7, "two-stmts-away": 0, "import-two-changes": 7, "import-three-changes": 7, "grow-then-shrink": 9, "grow-then-edit": 9, "pkg-rename": 0}
 
 
 def body_site(rng, i, need=None):
@@ -118,6 +121,9 @@ def gen_file(rng, pn=""):
     parts.append(hdr)
     if "import-delete-middle" in pns:
         parts.append("import \"fmt\" // fmt-trailing\n\n// about os\nimport \"os\"\n\n// doc strings\nimport \"strings\" // strings-trailing\n\nvar _ = fmt.Sprint(strings.ToUpper(\"x\"))\n")
+    elif rng.random() < 0.12 and not first_special and not any(x.startswith("import-") for x in pns):
+        # several import declarations with comments of their own
+        parts.append("import \"fmt\" // fmt-trailing\n\n// doc strings\nimport \"strings\" // strings-trailing\n\nvar _ = fmt.Sprint(strings.ToUpper(\"x\"))\n")
     elif (rng.random() < 0.6 and not first_special) or any(x.startswith("import-") and x != "import-add" for x in pns):
         parts.append("import (\n\t\"fmt\" // fmt-trailing\n\t// about os\n\t\"os\"\n)\n")
     for i in range(n):
@@ -199,6 +205,15 @@ def judge_output(r, patch="", src=""):
             bad.append(("comment %r occurs %d time(s) in the input and %d in the output" % (t[:40], ci[t], n), None))
     if (I["header"] or []) != (O["header"] or []):
         bad.append(("header / package comments changed: %r -> %r" % (I["header"], O["header"]), None))
+    # import declarations the patch says nothing about: their comments stay attached to import declarations
+    if "import" not in patch:
+        own = lambda X: collections.Counter(t for d in X["decls"] if d.get("import") for cls in ("doc", "inside", "trailing") for t in (d[cls] or []))
+        oi, oo = own(I), own(O)
+        if oi != oo:
+            moved = [t for t in oi if oo[t] < oi[t]]
+            merged = sum(1 for d in O["decls"] if d.get("import")) < sum(1 for d in I["decls"] if d.get("import"))
+            bad.append(("the comments %r of import declarations, which the patch does not mention, are no longer attached to an import declaration" % moved[:4],
+                        "imports-process-merges-import-declarations" if merged and all(co[t] >= ci[t] for t in moved) else None))
     for a, b in align(I, O):
         x, y = I["decls"][a], O["decls"][b]
         for cls in ("doc", "inside", "trailing"):
@@ -229,6 +244,8 @@ def main():
             ks = rng.sample(singles, rng.choice([2, 2, 3]))
             if rng.random() < 0.5:      # a declaration-level change last
                 ks = [x for x in ks if x not in ("var-to-const", "var-to-func", "type-kind", "method-to-func", "const-block-to-var")][:2] + [rng.choice(["var-to-const", "var-to-func", "var-to-func", "type-kind", "method-to-func", "const-block-to-var", "const-block-to-var"])]
+            if rng.random() < 0.15:     # the package clause first, then a change at the head of the file
+                ks = ["pkg-rename", rng.choice(["import-replace", "import-delete-middle", "const-block-to-var", "var-to-func", "type-kind", "import-add", "stmt-delete"])]
             pn = "combo:" + "+".join(ks)
             cases.append((pn, "\n".join(PATCHES[x] for x in ks), gen_file(rng, pn)))
         else:
